@@ -19,29 +19,65 @@ ASSUMPTIONS = ["AMBA handshake rules for the environment: valid and payload held
                "so that the observational monitor can tell whose beat/answer it sees",
                "8-bit data, 6-bit addresses, 1..3 x 1..3, address maps as C06; max 6 handshakes per channel within the bound (monitor counters)",
                "time-out disabled (C11)"]
-BOUNDS = {"quick": "BMC K=10 cycles from reset", "thorough": "BMC K=16 cycles from reset, all shapes"}
-OUTSIDE = "AXI4 full twins (axi_full.py: same structure, larger state) are covered in the thorough tier for 2x2 only; schedules longer than K"
-FUNCS = ["litex.soc.interconnect.axi.axi_lite._AXILiteRequestCounter", "litex.soc.interconnect.axi.axi_lite.AXILiteArbiter", "litex.soc.interconnect.axi.axi_lite.AXILiteDecoder",
+BOUNDS = {"quick": "BMC K=10 cycles from reset (AXI-Lite 4 shapes, AXI4 shared 2x2)", "thorough": "BMC K=16 cycles from reset, all AXI-Lite shapes; AXI4 twins K=12..14, five shapes"}
+OUTSIDE = "AXI4 twins (axi_full.py) are checked with bursts of 1..3 beats of one common (rigid symbolic) length and INCR/any side-band values, 2x2 shared in quick, five shapes in thorough; longer or mixed-length bursts; schedules longer than K"
+FUNCS = ["litex.soc.interconnect.axi.axi_full.AXIInterconnectShared/AXICrossbar/AXIArbiter/AXIDecoder (axi_* harnesses)", "litex.soc.interconnect.axi.axi_lite._AXILiteRequestCounter", "litex.soc.interconnect.axi.axi_lite.AXILiteArbiter", "litex.soc.interconnect.axi.axi_lite.AXILiteDecoder",
          "litex.soc.interconnect.axi.axi_lite.AXILiteInterconnectShared", "litex.soc.interconnect.axi.axi_lite.AXILiteCrossbar",
          "litex.soc.interconnect.axi.axi_lite.AXILiteInterface.layout_flat", "litex.soc.interconnect.axi.axi_common.connect_axi/axi_layout_flat",
          "litex.soc.integration.soc.SoCRegion.decoder"]
 
 
+class AxiMaster(AxilMaster):
+    """AXI4 master: as the AXI-Lite one, plus burst discipline. Every burst has the (rigid, symbolic) length L: aw.len == ar.len == L and
+    w.last is raised exactly on beat L of each W burst. n['w'] counts COMPLETED W bursts, n['r'] completed R bursts."""
+
+    def __init__(self, bus, tag, L, cw=3):
+        AxilMaster.__init__(self, bus, tag, cw, burst=True)
+        self.free += [bus.w.last]
+        wbeat = self.reg(2, "wbeat_" + tag)
+        self.sync += If(hs(bus.w), If(bus.w.last, wbeat.eq(0)).Else(wbeat.eq(wbeat + 1)))
+        a2 = Signal(name_override="asm_master_bursts_" + tag)
+        self.comb += a2.eq((~bus.aw.valid | (bus.aw.len == L)) & (~bus.ar.valid | (bus.ar.len == L)) & (~bus.w.valid | (bus.w.last == (wbeat == L))))
+        self.asm2 = a2
+
+
+class AxiSlave(AxilSlave):
+    """AXI4 slave: R bursts of L+1 beats with last on the final one; n['r'] counts completed R bursts, n['w'] completed W bursts."""
+
+    def __init__(self, bus, tag, L, cw=3):
+        AxilSlave.__init__(self, bus, tag, cw, burst=True)
+        self.free += [bus.r.last, bus.b.id, bus.r.id]
+        rbeat = self.reg(2, "rbeat_" + tag)
+        self.sync += If(hs(bus.r), If(bus.r.last, rbeat.eq(0)).Else(rbeat.eq(rbeat + 1)))
+        a2 = Signal(name_override="asm_slave_bursts_" + tag)
+        self.comb += a2.eq(~bus.r.valid | (bus.r.last == (rbeat == L)))
+        self.asm2 = a2
+
+
 class AxilIC(Mon):
-    def __init__(self, kind, M, S, amap, dw=8, aw=6, timeout=None):
+    def __init__(self, kind, M, S, amap, dw=8, aw=6, timeout=None, std="lite"):
         from litex.soc.interconnect import axi
         from litex.soc.integration.soc import SoCRegion
         self.M, self.S = M, S
-        self.ms = ms = [axi.AXILiteInterface(data_width=dw, address_width=aw) for _ in range(M)]
-        self.ss = ss = [axi.AXILiteInterface(data_width=dw, address_width=aw) for _ in range(S)]
+        self.std = std
+        if std == "lite":
+            self.ms = ms = [axi.AXILiteInterface(data_width=dw, address_width=aw) for _ in range(M)]
+            self.ss = ss = [axi.AXILiteInterface(data_width=dw, address_width=aw) for _ in range(S)]
+        else:
+            self.ms = ms = [axi.AXIInterface(data_width=dw, address_width=aw, id_width=1) for _ in range(M)]
+            self.ss = ss = [axi.AXIInterface(data_width=dw, address_width=aw, id_width=1) for _ in range(S)]
         regs = [SoCRegion(origin=o, size=sz) for (o, sz) in amap[:S]]
         decs = [(regs[i].decoder(ms[0]), ss[i]) for i in range(S)]
-        if kind == "shared":
-            self.submodules.dut = axi.AXILiteInterconnectShared(ms, decs, timeout_cycles=timeout)
+        ic = {("lite", "shared"): axi.AXILiteInterconnectShared, ("lite", "crossbar"): axi.AXILiteCrossbar,
+              ("full", "shared"): axi.AXIInterconnectShared, ("full", "crossbar"): axi.AXICrossbar}[(std, kind)]
+        self.submodules.dut = ic(ms, decs, timeout_cycles=timeout)
+        if std == "lite":
+            self.menv = [AxilMaster(m, "m%d" % i) for i, m in enumerate(ms)]
+            self.senv = [AxilSlave(s, "s%d" % j) for j, s in enumerate(ss)]
         else:
-            self.submodules.dut = axi.AXILiteCrossbar(ms, decs, timeout_cycles=timeout)
-        self.menv = [AxilMaster(m, "m%d" % i) for i, m in enumerate(ms)]
-        self.senv = [AxilSlave(s, "s%d" % j) for j, s in enumerate(ss)]
+            self.L = Signal(2, name_override="burst_len")        # rigid: every burst has L+1 beats
+            self.menv = [AxiMaster(m, "m%d" % i, self.L) for i, m in enumerate(ms)]
+            self.senv = [AxiSlave(s, "s%d" % j, self.L) for j, s in enumerate(ss)]
         self.submodules += self.menv + self.senv
         self.free = []
         for e in self.menv + self.senv:
@@ -66,14 +102,32 @@ class AxilIC(Mon):
         self.asm_tag = Signal(name_override="asm_tags")
         self.comb += self.asm_tag.eq(tag)
         self.assume = [e.asm for e in self.menv + self.senv] + [e.no_ovf for e in self.menv + self.senv] + [self.asm_tag]
+        full = std == "full"
+        if full:
+            self.assume += [e.asm2 for e in self.menv + self.senv]
+            aL = Signal(name_override="asm_burst_len")
+            self.comb += aL.eq(self.L <= 2)
+            self.assume.append(aL)
+
+        def same_w(sw, mw):
+            return (sw.data == mw.data) & (sw.strb == mw.strb) & ((sw.last == mw.last) if full else 1)
+
+        def same_r(mr, sr):
+            return (mr.data == sr.data) & (mr.resp == sr.resp) & (((mr.last == sr.last) & (mr.id == sr.id)) if full else 1)
+
+        def same_ax(sa, ma):
+            if not full:
+                return sa.addr == ma.addr
+            from vf.axil import payload_of
+            return payload_of(sa) == payload_of(ma)
         # --- per-frame routing obligations
         bad_aw = 0; bad_ar = 0; bad_w = 0; bad_b = 0; bad_r = 0; bad_dup = 0
         for i, m in enumerate(ms):
-            bad_aw = bad_aw | (hs(m.aw) & ~any_([(win(m.aw.addr) == j) & hs(s.aw) & (s.aw.addr == m.aw.addr) for j, s in enumerate(ss)]))
-            bad_ar = bad_ar | (hs(m.ar) & ~any_([(win(m.ar.addr) == j) & hs(s.ar) & (s.ar.addr == m.ar.addr) for j, s in enumerate(ss)]))
-            bad_w = bad_w | (hs(m.w) & ~any_([hs(s.w) & (s.w.data == m.w.data) & (s.w.strb == m.w.strb) for s in ss]))
+            bad_aw = bad_aw | (hs(m.aw) & ~any_([(win(m.aw.addr) == j) & hs(s.aw) & same_ax(s.aw, m.aw) for j, s in enumerate(ss)]))
+            bad_ar = bad_ar | (hs(m.ar) & ~any_([(win(m.ar.addr) == j) & hs(s.ar) & same_ax(s.ar, m.ar) for j, s in enumerate(ss)]))
+            bad_w = bad_w | (hs(m.w) & ~any_([hs(s.w) & same_w(s.w, m.w) for s in ss]))
             bad_b = bad_b | (hs(m.b) & ~any_([hs(s.b) & (m.b.resp == j) for j, s in enumerate(ss)]))
-            bad_r = bad_r | (hs(m.r) & ~any_([hs(s.r) & (m.r.data == s.r.data) & (m.r.data[:2] == j) & (m.r.resp == s.r.resp) for j, s in enumerate(ss)]))
+            bad_r = bad_r | (hs(m.r) & ~any_([hs(s.r) & same_r(m.r, s.r) & (m.r.data[:2] == j) for j, s in enumerate(ss)]))
         for j, s in enumerate(ss):
             for chn in ("aw", "w", "ar"):
                 n = 0
@@ -196,10 +250,18 @@ class AxilIC(Mon):
             self.showl += [s.aw.valid, s.aw.ready, s.w.valid, s.w.ready, s.b.valid, s.b.ready, s.ar.valid, s.ar.ready, s.r.valid, s.r.ready]
 
 
-def build(kind, M, S, mapname, K):
-    top = AxilIC(kind, M, S, MAPS[mapname])
-    name = "axil_%s_%dx%d_%s" % (kind, M, S, mapname)
+FUNCS_FULL = ["litex.soc.interconnect.axi.axi_full._AXIRequestCounter", "litex.soc.interconnect.axi.axi_full.AXIArbiter", "litex.soc.interconnect.axi.axi_full.AXIDecoder",
+              "litex.soc.interconnect.axi.axi_full.AXIInterconnectShared", "litex.soc.interconnect.axi.axi_full.AXICrossbar", "litex.soc.interconnect.axi.axi_full.AXIInterface.layout_flat",
+              "litex.soc.integration.soc.SoCRegion.decoder"]
+
+
+def build(kind, M, S, mapname, K, std="lite"):
+    top = AxilIC(kind, M, S, MAPS[mapname], std=std)
+    name = "%s_%s_%dx%d_%s" % ("axil" if std == "lite" else "axi", kind, M, S, mapname)
     exc = {k: [top.exc] for k in top.bads}
+    if std == "full":
+        return H(name, top, top.free, rigid=[top.mi, top.N, top.L], assume=top.assume, bad=top.bads, witness=dict(every_master_wrote_and_read=top.w_all, two_outstanding=top.w_two),
+                 K=K, funcs=FUNCS_FULL, cfg=dict(kind=kind, masters=M, slaves=S, map=mapname, amap=MAPS[mapname][:S], burst_beats="1..3 (rigid symbolic)"), show=top.showl, vcycles=30, excuses=exc)
     return H(name, top, top.free, rigid=[top.mi, top.N], assume=top.assume, bad=top.bads, witness=dict(every_master_wrote_and_read=top.w_all, two_outstanding=top.w_two),
              K=K, funcs=FUNCS, cfg=dict(kind=kind, masters=M, slaves=S, map=mapname, amap=MAPS[mapname][:S]), show=top.showl, vcycles=30, excuses=exc)
 
@@ -215,6 +277,13 @@ def jobs(tier):
         cfgs = [("shared", 2, 2, "adjacent"), ("shared", 2, 3, "hole"), ("crossbar", 2, 2, "hole"), ("shared", 1, 2, "gapped")]
     for (kind, m, s, mp) in cfgs:
         js.append(Job("axil_%s_%dx%d_%s" % (kind, m, s, mp), build, dict(kind=kind, M=m, S=s, mapname=mp, K=K), cost=m * s * (3 if kind == "crossbar" else 1), timeout_s=3400))
+    # AXI4 twins (bursts of 1..3 beats, rigid symbolic length)
+    if tier == "thorough":
+        fcfgs = [("shared", 2, 2, "adjacent", 14), ("crossbar", 2, 2, "hole", 14), ("shared", 1, 2, "gapped", 14), ("shared", 2, 1, "adjacent", 14), ("shared", 2, 3, "hole", 12)]
+    else:
+        fcfgs = [("shared", 2, 2, "adjacent", 10)]
+    for (kind, m, s, mp, k) in fcfgs:
+        js.append(Job("axi_%s_%dx%d_%s" % (kind, m, s, mp), build, dict(kind=kind, M=m, S=s, mapname=mp, K=k, std="full"), cost=m * s * 6, timeout_s=3400))
     return js
 
 
